@@ -42,6 +42,8 @@ IR_RUNS.update({
             "thorough": [("MC", "vlog_read", 3), ("MC", "vlog_read", 12, 300)]},
     "C04": {"quick": [("MC", "vlog_rt", 2), ("MC", "vlog_rt", 10, 14)],
             "thorough": [("MC", "vlog_rt", 3), ("MC", "vlog_rt", 12, 300)]},
+    "C16": {"quick": [("MC", "c16_edif", 2), ("MC", "c16_edif3", 2), ("MC", "c16_vlog", 1), ("MC", "c16_eblif", 2)],
+            "thorough": [("MC", "c16_edif", 3), ("MC", "c16_vlog", 2), ("MC", "c16_eblif", 3), ("MC", "c16_edif", 12, 300)]},
     "C18": {"quick": [("MC", "eblif_read", 3), ("MC", "eblif_rt", 2), ("MC", "eblif_latch", 2), ("MC", "eblif_latch_rt", 3),
                       ("MC", "eblif_read", 10, 14)],
             "thorough": [("MC", "eblif_read", 4), ("MC", "eblif_rt", 3), ("MC", "eblif_latch", 4), ("MC", "eblif_latch_rt", 4),
@@ -61,6 +63,12 @@ IR_RUNS.update({
             "thorough": [("MC", "hier12", 5), ("MC", "hier12", 14, 1000)]},
 })
 IR_RULE = {
+    "C16": "every design of the EDIF scope is composed twice to EDIF; every design of the Verilog scope is read by the real "
+           "reader and composed twice to Verilog under all 8 combinations of write_blackbox / defparam / definition_list (and "
+           "once to EBLIF and to EDIF); every design of the EBLIF scope is read and composed twice to EBLIF under all 4 "
+           "combinations of write_blackbox / write_eblif_cname; read-only queries run between the two writes; the full "
+           "projected state including user data outside the modelled keys is compared before and after; "
+           "distinct_nontrivial counts distinct (design, format, options) triples",
     "C18": "abstract flat designs = reachable states of a build scope following spydrnet's EBLIF conventions (top model with a "
            "bus input, primitives LEAF and AND2 with a 2-bit port, up to three instances of type .subckt/.gate with .cname "
            "and .param, every way of tying pins to scalar and bus-indexed nets, unconnected pins); rendered by the "
@@ -336,4 +344,4 @@ def ir_history(pid, tier, seed, replay=None, runs=None, strict=True):
 
 
 HANDLERS = {"C01": ir_history, "C02": ir_history, "C14": ir_history, "C10": ir_history, "C19": ir_history, "C11": ir_history,
-            "C12": ir_history, "C08": ir_history, "C09": ir_history, "C07": ir_history, "C13": ir_history, "C20": ir_history, "C05": ir_history, "C03": ir_history, "C17": ir_history, "C06": ir_history, "C04": ir_history, "C18": ir_history}
+            "C12": ir_history, "C08": ir_history, "C09": ir_history, "C07": ir_history, "C13": ir_history, "C20": ir_history, "C05": ir_history, "C03": ir_history, "C17": ir_history, "C06": ir_history, "C04": ir_history, "C18": ir_history, "C16": ir_history}
